@@ -225,7 +225,10 @@ from xv.harness import _calq  # noqa: E402
 def _two_comps(n, k1, hs1, s1, hl1, l1, d1, k2, hs2, s2, d2, is_date, has_end, e1):
     comps = []
     if n >= 1:
-        comps.append(_calq.component(k1, hs1, s1, hl1, l1, True, d1, is_date, has_end, e1))
+        # DTSTART is optional in VTODO and VJOURNAL (required in VEVENT): the first component goes without one when
+        # `has_end` is set on a non-VEVENT (the flag has no other meaning there)
+        has_start1 = not (has_end and k1 != 0)
+        comps.append(_calq.component(k1, hs1, s1, hl1, l1, has_start1, d1, is_date, has_end, e1))
     if n >= 2:
         comps.append(_calq.component(k2, hs2, s2, False, "", True, d2, False, False, 0))
     return _calq.calendar(comps)
